@@ -200,11 +200,13 @@ func (r *BReader) ToTarReader() (*BTarReader, error) {
 	if r.readBytes != 0 {
 		return nil, fmt.Errorf("unable to convert after read has been performed")
 	}
+	// Read through BReader.Read, not r.reader, so that the size and digest are verified at the end of the stream.
+	// Only the Read method is passed on, closing the blob remains with the caller of ToTarReader.
 	return NewTarReader(
 		WithDesc(r.desc),
 		WithHeader(r.rawHeader),
 		WithRef(r.r),
 		WithResp(r.resp),
-		WithReader(r.reader),
+		WithReader(struct{ io.Reader }{r}),
 	), nil
 }
